@@ -232,6 +232,9 @@ pub struct LogBuilder<W: Write> {
     output: BufWriter<W>,
     bytes_written: u64,
     setsum: Setsum,
+    // Set when a write to `output` failed:  part of a frame may be in the file, and anything
+    // appended behind it would be unreadable.
+    failed: bool,
 }
 
 impl LogBuilder<File> {
@@ -252,7 +255,7 @@ impl LogBuilder<File> {
     /// fsync the log builder.
     pub fn fsync(&mut self) -> Result<(), SError> {
         FSYNC.click();
-        io_result_with_context(self.output.flush(), "log builder flush")?;
+        self.flush()?;
         io_result_with_context(self.output.get_mut().sync_data(), "log builder sync_data")
     }
 }
@@ -266,18 +269,26 @@ impl<W: Write> LogBuilder<W> {
             output,
             bytes_written: 0,
             setsum: Setsum::default(),
+            failed: false,
         })
     }
 
     /// Flush the log to the OS.  This does not call fsync.
     pub fn flush(&mut self) -> Result<(), SError> {
-        io_result_with_context(self.output.flush(), "log builder flush")
+        let res = io_result_with_context(self.output.flush(), "log builder flush");
+        if res.is_err() {
+            self.failed = true;
+        }
+        res
     }
 
     /// Append a write batch to the log.
     pub fn append(&mut self, write_batch: &WriteBatch) -> Result<(), SError> {
         if write_batch.buffer.is_empty() {
             return Err(empty_batch());
+        }
+        if self.failed {
+            return Err(corruption_log_poisoned());
         }
         assert_ne!(write_batch.setsum, Setsum::default());
         self.setsum += write_batch.setsum;
@@ -360,7 +371,10 @@ impl<W: Write> LogBuilder<W> {
     }
 
     fn write(&mut self, buffer: &[u8]) -> Result<(), SError> {
-        io_result_with_context(self.output.write_all(buffer), "log write_all")?;
+        if let Err(err) = io_result_with_context(self.output.write_all(buffer), "log write_all") {
+            self.failed = true;
+            return Err(err);
+        }
         self.bytes_written += buffer.len() as u64;
         Ok(())
     }
